@@ -94,6 +94,45 @@ func isCircleObj(o geojson.Object) bool {
 	return ok
 }
 
+// findingNonFinite: SET ... OBJECT accepts GeoJSON with null (-> NaN, in Points)
+// or 1e999 (-> +-Inf) coordinates and indexes it; a NaN box corrupts the node
+// rectangles of the R-tree (trees of depth 3, i.e. > ~4000 entries, show it),
+// after which searches miss ordinary objects that GET/SCAN still return.
+const findingNonFinite = "object-nonfinite-coordinates"
+
+// nonFiniteRefused: the server under test refuses such objects (set by a probe
+// in TestMain); the in-package machine then follows the same admission rule.
+var nonFiniteRefused bool
+
+// nonFinite reports an ordinary (non-circle) geometry with a NaN or Inf
+// coordinate anywhere in its box or in the box of a child.
+func nonFinite(o geojson.Object) bool {
+	if o == nil || isCircleObj(o) {
+		return false
+	}
+	if _, isStr := o.(collection.String); isStr {
+		return false
+	}
+	bad := func(v float64) bool { return math.IsNaN(v) || math.IsInf(v, 0) }
+	if !o.Empty() {
+		r := o.Rect()
+		if bad(r.Min.X) || bad(r.Min.Y) || bad(r.Max.X) || bad(r.Max.Y) {
+			return true
+		}
+	}
+	switch g := o.(type) {
+	case *geojson.Feature:
+		return nonFinite(g.Base())
+	case geojson.Collection:
+		for _, ch := range g.Children() {
+			if nonFinite(ch) {
+				return true
+			}
+		}
+	}
+	return false
+}
+
 // nestedCircle reports a circle below the top level of o.
 func nestedCircle(o geojson.Object) bool {
 	if o == nil || isCircleObj(o) {
@@ -143,6 +182,12 @@ func TestMain(m *testing.M) {
 	if err != nil {
 		fmt.Fprintln(os.Stderr, "cannot start server:", err)
 		os.Exit(2)
+	}
+	if c, err := srv.Dial(); err == nil {
+		v, _ := c.Do("SET", "nonfinite-probe", "x", "OBJECT", `{"type":"Point","coordinates":[null,1]}`)
+		nonFiniteRefused = v.IsErr()
+		c.Do("FLUSHDB")
+		c.Close()
 	}
 	code := m.Run()
 	srv.Stop()
@@ -306,12 +351,20 @@ func (b *srvBackend) set(id string, spec objSpec, obj geojson.Object) error {
 	if err != nil {
 		return err
 	}
+	if v.IsErr() && nonFinite(obj) {
+		return refusedErr{v.Str}
+	}
 	if v.Kind != '+' {
 		return fmt.Errorf("SET %s %v answered %s", id, spec.Args, v)
 	}
 	b.objs[id] = obj
 	return nil
 }
+
+// refusedErr: the server does not admit the object (non-finite coordinates).
+type refusedErr struct{ msg string }
+
+func (e refusedErr) Error() string { return e.msg }
 
 func (b *srvBackend) del(id string) error {
 	v, err := b.c.Do("DEL", theKey, id)
@@ -530,6 +583,7 @@ type machine struct {
 	inex     int // live objects whose float64 box is not its float32 box
 	nextN    int
 	nan      bool // an object with a NaN box has been stored in this history
+	nonfin   bool // an ordinary object with a NaN/Inf coordinate has been stored
 	touchSeq int
 	nTouch   int // geometry-preserving updates (FSET/EXPIRE/PERSIST) so far
 }
@@ -586,6 +640,12 @@ func (m *machine) apply(st step) {
 			m.harnessErr("generated object does not parse: %v %v", st.Obj.Args, err)
 		}
 		if err := m.be.set(st.ID, *st.Obj, obj); err != nil {
+			if _, refused := err.(refusedErr); refused {
+				// nothing changed; the previous object of that id, if any, stays
+				m.c.Label("nonfinite-object-refused-by-server")
+				m.mix("set-refused", st.ID)
+				return
+			}
 			m.harnessErr("%v", err)
 		}
 		if old, ok := m.live[st.ID]; ok {
@@ -601,7 +661,9 @@ func (m *machine) apply(st step) {
 		if inexact(obj) {
 			m.inex++
 		}
-		if nanBox(obj) || hasNaNCircle(obj) {
+		if nonFinite(obj) {
+			m.nonfin = true
+		} else if nanBox(obj) || hasNaNCircle(obj) {
 			m.nan = true
 		}
 		m.mix("set", st.ID, strings.Join(st.Obj.Args, " "))
@@ -785,10 +847,15 @@ func (m *machine) query(st step) {
 	// comparison. What must still hold - and is checked by everything else in
 	// the history - is that their presence does not disturb other objects.
 	for id, o := range m.live {
-		if hasNaNCircle(o) {
+		if hasNaNCircle(o) || nonFinite(o) {
+			// (likewise for ordinary geometries with NaN/Inf coordinates: the
+			// predicates compute with NaN)
 			ignore[id] = true
 			delete(want, id)
 		}
+	}
+	if m.nonfin {
+		c.Label("excluded:nonfinite-object")
 	}
 	if m.nan {
 		c.Label("excluded:nan-circle-object")
@@ -815,7 +882,12 @@ func (m *machine) query(st step) {
 		c.Fail(m.t, fe.key, fmt.Sprintf("%s (over %d objects, %d of them empty geometries; after %d deletes, %d overwrites)", fe.msg, len(m.live), m.nEmpty(), m.nDel, m.nMove), m.hist)
 	}
 	if se, ok := err.(staleErr); ok {
-		c.Fail(m.t, "stale-object-returned", fmt.Sprintf("%s %s sparse=%d (after %d deletes, %d overwrites, %d FSET/EXPIRE/PERSIST updates): %s",
+		key := "stale-object-returned"
+		if m.nonfin {
+			// rtree.Delete cannot find an entry in a tree whose rectangles are NaN
+			key = findingNonFinite
+		}
+		c.Fail(m.t, key, fmt.Sprintf("%s %s sparse=%d (after %d deletes, %d overwrites, %d FSET/EXPIRE/PERSIST updates): %s",
 			strings.ToUpper(st.Pred), strings.Join(area.cmdArgs(), " "), st.Sparse, m.nDel, m.nMove, m.nTouch, se.msg), m.hist)
 	}
 	if err != nil {
@@ -862,12 +934,18 @@ func (m *machine) query(st step) {
 		if m.nan {
 			key = findingNaN
 		}
+		if m.nonfin {
+			key = findingNonFinite
+		}
 		c.Fail(m.t, key, desc()+"; returned although the predicate is false (or the id is gone): "+clipStr(extra, 8), m.hist)
 	}
 	if st.Sparse == 0 && len(lost) > 0 {
 		key := "lost-result:" + st.Pred
 		if m.nan {
 			key = findingNaN
+		}
+		if m.nonfin {
+			key = findingNonFinite
 		}
 		for _, fid := range allFindings {
 			all := true
@@ -980,10 +1058,14 @@ func hasMultiSegLine(o geojson.Object) bool {
 
 type sizes struct {
 	small, mid, large [2]int // object count ranges
+	huge              [2]int // 2 % of the histories (0,0 = never): R-trees of depth 3
 	steps             int
 }
 
 func drawN(rt *rapid.T, s sizes) int {
+	if s.huge[1] > 0 && rapid.IntRange(0, 49).Draw(rt, "huge?") == 49 {
+		return rapid.IntRange(s.huge[0], s.huge[1]).Draw(rt, "n")
+	}
 	switch k := rapid.IntRange(0, 9).Draw(rt, "sizeclass"); {
 	case k < 6:
 		return rapid.IntRange(s.small[0], s.small[1]).Draw(rt, "n")
@@ -998,6 +1080,16 @@ func drawN(rt *rapid.T, s sizes) int {
 // objects whose polygon box is NaN are replaced by their centre point.
 func (m *machine) drawObject(t *rapid.T, p pool) objSpec {
 	o := p.object(t)
+	if nonFiniteRefused || ev.KnownActive(findingNonFinite) {
+		if g, err := buildObject(o); err == nil && nonFinite(g) {
+			if nonFiniteRefused {
+				m.c.Label("nonfinite-object-refused-by-server")
+			} else {
+				m.c.Excluded(findingNonFinite)
+			}
+			return objSpec{[]string{"POINT", "0", "0"}}
+		}
+	}
 	if ev.KnownActive(findingNaN) {
 		if g, err := buildObject(o); err == nil && nanBox(g) {
 			m.c.Excluded(findingNaN)
@@ -1210,9 +1302,9 @@ func TestC02_Collection(t *testing.T) {
 	t.Cleanup(c.Flush)
 	c.Rule("in-package, collection.Collection driven directly: " + ruleText + " Oracle: {o in Scan : o.Geo().Within|Intersects(area)}; SPARSE results must be a duplicate-free subset of it.")
 	c.Assume("tidwall/geojson's Within/Intersects are the per-object predicate (the property is about the index, not about the predicate)")
-	s := sizes{small: [2]int{50, 300}, mid: [2]int{300, 1200}, large: [2]int{1200, 3000}, steps: 45}
+	s := sizes{small: [2]int{50, 300}, mid: [2]int{300, 1200}, large: [2]int{1200, 3000}, huge: [2]int{4200, 6000}, steps: 45}
 	if ev.Thorough() {
-		s = sizes{small: [2]int{50, 400}, mid: [2]int{400, 2000}, large: [2]int{2000, 5000}, steps: 60}
+		s = sizes{small: [2]int{50, 400}, mid: [2]int{400, 2000}, large: [2]int{2000, 5000}, huge: [2]int{4200, 9000}, steps: 60}
 	}
 	flag.Set("rapid.steps", strconv.Itoa(s.steps))
 	ev.Rapid("collection", ev.Pick(900, 3000))
